@@ -76,7 +76,7 @@ static rc::Gen<Op> gSetupOp(const ScriptCfg &c, bool rates = true) {
 static rc::Gen<long long> frameDev(const ScriptCfg &c) {
     if (c.raggedSub) return g::weightedOneOf<long long>({{8, g::just<long long>(0)}, {1, g::just<long long>(12)}, {2, g::just<long long>(13)}});
     if (!c.deviations) return g::weightedOneOf<long long>({{9, g::just<long long>(0)}, {1, g::just<long long>(12)}});
-    return g::weightedOneOf<long long>({{6, g::just<long long>(0)}, {1, g::just<long long>(12)}, {5, uni(1, 10)}});
+    return g::weightedOneOf<long long>({{6, g::just<long long>(0)}, {1, g::just<long long>(12)}, {5, uni(1, 10)}, {1, g::just<long long>(11)}});   // 11 = permuted points (known finding KF-D21 while open)
 }
 static rc::Gen<std::vector<Op>> gFrameAdd(const ScriptCfg &c) {
     // build a frame in a slot and submit it
